@@ -241,18 +241,43 @@ def correspondence(ctx, rows, tag):
 
 
 # =========================================================================== search
-def _work(case):
-    return S.evaluate(case)
+class _Watchdog(Exception):
+    pass
+
+
+def _alarm(signum, frame):
+    raise _Watchdog()
+
+
+def _work(task):
+    """generate (own PRNG per task: deterministic whatever the scheduling) and evaluate one case,
+    under a watchdog: a call that does not return is counted, never waited for"""
+    import random
+    import signal
+    cls, sub = task
+    signal.signal(signal.SIGALRM, _alarm)
+    signal.setitimer(signal.ITIMER_REAL, 120.0)
+    case = None
+    try:
+        case = S.gen_case(random.Random(sub), cls)
+        return case, S.evaluate(case)
+    except _Watchdog:
+        return case, {"status": "skipped", "why": "watchdog: no result within 120 s (C15 territory)"}
+    finally:
+        signal.setitimer(signal.ITIMER_REAL, 0.0)
 
 
 def search(ctx, n_per_class, procs=4):
     rng = ctx.rng
-    cases = [S.gen_case(rng, c) for c in S.CLASSES for _ in range(n_per_class)]
+    tasks = [(c, rng.getrandbits(48)) for c in S.CLASSES for _ in range(n_per_class)]
     if procs > 1:
         with Pool(procs) as p:
-            res = p.map(_work, cases, chunksize=16)
+            out = p.map(_work, tasks, chunksize=16)
     else:
-        res = [S.evaluate(c) for c in cases]
+        out = [_work(t) for t in tasks]
+    out = [(c, r) for c, r in out if c is not None]
+    cases = [c for c, _ in out]
+    res = [r for _, r in out]
     nskip = 0
     worst = {}
     for case, r in zip(cases, res):
